@@ -7,7 +7,7 @@ use crate::core::{hex, Ctx, Rng, Stage};
 use crate::der;
 use crate::model::IntervalSet;
 use bcder::decode::IntoSource;
-use bcder::encode::Values;
+use bcder::encode::{PrimitiveContent, Values};
 use bcder::Mode;
 use rpki::ca::provisioning::RequestResourceLimit;
 use rpki::repository::cert::Overclaim;
@@ -58,15 +58,21 @@ fn addr_text(fl: Flavour, v: u128) -> String {
     }
 }
 
-/// Text in the library's syntax, written by the harness (std address formatting).
-fn ip_text(fl: Flavour, blocks: &[(u128, u128)], rng: &mut Rng) -> String {
+/// One text item per block in the library's syntax, written by the harness
+/// (std address formatting). A reversed block (lo > hi) is always written in
+/// range syntax.
+fn ip_text_items(fl: Flavour, blocks: &[(u128, u128)], rng: &mut Rng) -> Vec<String> {
     let mut parts = Vec::new();
     for (lo, hi) in blocks {
+        if lo > hi {
+            parts.push(format!("{}-{}", addr_text(fl, *lo), addr_text(fl, *hi)));
+            continue;
+        }
         let (a, b) = fl.embed(*lo, *hi);
         if prefix_expressible(a, b) && rng.chance(2, 3) {
             let host = if a == 0 && b == u128::MAX { 128 } else { (b - a + 1).trailing_zeros() };
-            let len = 128 - host - if fl == Flavour::V4 { 0 } else { 0 };
             // for v4 the embedded /32 is 128-96 = 32 bits long already
+            let len = 128 - host;
             if lo == hi && rng.bool() {
                 parts.push(addr_text(fl, *lo));
             } else {
@@ -78,7 +84,7 @@ fn ip_text(fl: Flavour, blocks: &[(u128, u128)], rng: &mut Rng) -> String {
             parts.push(format!("{}-{}", addr_text(fl, *lo), addr_text(fl, *hi)));
         }
     }
-    parts.join(*rng.pick(&[", ", ",", " , "]))
+    parts
 }
 
 fn bitstring_from(v: u128, nbits: u32) -> Vec<u8> {
@@ -91,7 +97,7 @@ fn bitstring_from(v: u128, nbits: u32) -> Vec<u8> {
 }
 
 /// SEQUENCE OF IPAddressOrRange by the independent encoder (value space).
-fn ip_der(fl: Flavour, blocks: &[(u128, u128)], force_range: bool) -> Vec<u8> {
+pub fn ip_der(fl: Flavour, blocks: &[(u128, u128)], force_range: bool) -> Vec<u8> {
     let mut items = Vec::new();
     for (lo, hi) in blocks {
         let (a, b) = if lo <= hi { fl.embed(*lo, *hi) } else {
@@ -177,11 +183,336 @@ fn typed_from_str(fl: Flavour, text: &str) -> Result<IpBlocks, String> {
     }
 }
 
+//------------ every public entry point that yields address blocks ----------
+//
+// Tables written from the `pub fn` / trait-impl surface of
+// src/repository/resources/{ipres,set}.rs and src/resources/addr.rs. The same
+// block list is offered to every entry; single-block decoders and parsers
+// are followed by one of the public collectors (FromIterator, builder push,
+// builder Extend) because the property speaks about collections.
+
+/// DER decoders, all fed the same `SEQUENCE OF IPAddressOrRange`.
+pub const IP_DER_ENTRIES: &[&str] = &[
+    "IpBlocks::take_from_with_family",
+    "IpBlocks::take_from",
+    "IpResources::take_from",
+    "IpResources::take_families_from",
+    "IpBlock::take_opt_from+collect",
+    "IpBlock::take_opt_from_with_family+collect",
+    "item:Prefix::take_from|IpBlock::take_opt_from+collect",
+    "item:Prefix::parse_content|IpBlock::take_opt_from_with_family+collect",
+    "item:Prefix::parse_content_with_family|IpBlock::take_opt_from+collect",
+];
+
+/// Text parsers, all fed the same items.
+pub const IP_TEXT_ENTRIES: &[&str] = &[
+    "Ipv4Blocks|Ipv6Blocks::from_str",
+    "IpBlocks::from_str",
+    "Ipv4Blocks|Ipv6Blocks::deserialize",
+    "ResourceSet::from_strs",
+    "ResourceSet::deserialize",
+    "item:IpBlock::from_str+collect",
+    "item:IpBlock::from_v4_str|from_v6_str+collect",
+    "item:AddressRange|Prefix::from_v4_str|from_v6_str+collect",
+    "item:AddressRange|Prefix::from_str+collect",
+    "item:Ipv4Block|Ipv6Block::from_str+typed-from_iter",
+    "item:resources::Prefix::from_str->IpBlock+collect",
+];
+
+/// The public ways of turning single blocks into a collection.
+fn collect_blocks(v: Vec<IpBlock>, how: u64) -> IpBlocks {
+    match how % 3 {
+        0 => IpBlocks::from_iter(v),
+        1 => {
+            let mut b = IpBlocksBuilder::new();
+            for x in v {
+                b.push(x);
+            }
+            b.finalize()
+        }
+        _ => {
+            let mut b = IpBlocksBuilder::new();
+            let cut = v.len() / 2;
+            b.extend(v[..cut].iter().copied());
+            b.extend(v[cut..].iter().copied());
+            b.finalize()
+        }
+    }
+}
+
+/// Runs DER entry `which` over `data` (a SEQUENCE OF IPAddressOrRange).
+pub fn ip_der_entry(which: usize, fl: Flavour, data: &[u8], how: u64) -> Result<IpBlocks, String> {
+    let fam = family(fl);
+    let es = |e: bcder::decode::DecodeError<std::convert::Infallible>| e.to_string();
+    match which {
+        0 => Mode::Der.decode(data.into_source(), |cons| IpBlocks::take_from_with_family(cons, fam)).map_err(es),
+        1 => Mode::Der.decode(data.into_source(), IpBlocks::take_from).map_err(es),
+        2 => Mode::Der
+            .decode(data.into_source(), |cons| IpResources::take_from(cons, fam))
+            .map_err(es)
+            .and_then(|r| r.to_blocks().map_err(|_| "inherit".to_string())),
+        3 => {
+            // IPAddrBlocks ::= SEQUENCE OF IPAddressFamily { addressFamily OCTET STRING, choice }
+            let afi: &[u8] = if fl == Flavour::V4 { &[0, 1] } else { &[0, 2] };
+            let full = der::seq(&[&der::seq(&[&der::octets(afi), data])]);
+            let (v4, v6) = Mode::Der.decode(full.as_slice().into_source(), IpResources::take_families_from).map_err(es)?;
+            let (mine, other) = if fl == Flavour::V4 { (v4, v6) } else { (v6, v4) };
+            if other.is_some() {
+                return Err("resources for a family that was not encoded".into());
+            }
+            mine.ok_or_else(|| "family missing".to_string())?.to_blocks().map_err(|_| "inherit".to_string())
+        }
+        4 | 5 => {
+            let v: Vec<IpBlock> = Mode::Der
+                .decode(data.into_source(), |cons| {
+                    cons.take_sequence(|cons| {
+                        let mut v = Vec::new();
+                        while let Some(b) = if which == 4 { IpBlock::take_opt_from(cons)? } else { IpBlock::take_opt_from_with_family(cons, fam)? } {
+                            v.push(b);
+                        }
+                        Ok(v)
+                    })
+                })
+                .map_err(es)?;
+            Ok(collect_blocks(v, how))
+        }
+        _ => {
+            // every item on its own through the single-value decoders
+            let root = der::parse(data).ok_or("harness: unreadable")?;
+            let mut v = Vec::new();
+            for c in &root.children {
+                let item = c.whole(data);
+                let b: IpBlock = if c.tag == der::T_BITSTRING {
+                    let p = match which {
+                        6 => Mode::Der.decode(item.into_source(), Prefix::take_from),
+                        7 => Mode::Der.decode(item.into_source(), |cons| cons.take_value(|_, content| Prefix::parse_content(content))),
+                        _ => Mode::Der.decode(item.into_source(), |cons| cons.take_value(|_, content| Prefix::parse_content_with_family(content, fam))),
+                    };
+                    IpBlock::from(p.map_err(es)?)
+                } else {
+                    let r = if which == 7 {
+                        Mode::Der.decode(item.into_source(), |cons| IpBlock::take_opt_from_with_family(cons, fam))
+                    } else {
+                        Mode::Der.decode(item.into_source(), IpBlock::take_opt_from)
+                    };
+                    r.map_err(es)?.ok_or("no block")?
+                };
+                v.push(b);
+            }
+            Ok(collect_blocks(v, how))
+        }
+    }
+}
+
+fn typed_from_iter(fl: Flavour, items: &[String]) -> Result<IpBlocks, String> {
+    use rpki::repository::resources::{Ipv4Block, Ipv6Block};
+    if fl == Flavour::V4 {
+        let v: Result<Vec<Ipv4Block>, _> = items.iter().map(|s| Ipv4Block::from_str(s)).collect();
+        v.map(|v| (*Ipv4Blocks::from_iter(v)).clone()).map_err(|e| e.to_string())
+    } else {
+        let v: Result<Vec<Ipv6Block>, _> = items.iter().map(|s| Ipv6Block::from_str(s)).collect();
+        v.map(|v| (*Ipv6Blocks::from_iter(v)).clone()).map_err(|e| e.to_string())
+    }
+}
+
+/// Runs text entry `which` over the items (joined with `sep` where the entry takes a list).
+pub fn ip_text_entry(which: usize, fl: Flavour, items: &[String], sep: &str, how: u64) -> Result<IpBlocks, String> {
+    let v4 = fl == Flavour::V4;
+    let joined = items.join(sep);
+    let pick = |r: &ResourceSet| if v4 { (**r.ipv4()).clone() } else { (**r.ipv6()).clone() };
+    match which {
+        0 => typed_from_str(fl, &joined),
+        1 => IpBlocks::from_str(&joined).map_err(|e| e.to_string()),
+        2 => {
+            let js = Value::String(joined).to_string();
+            if v4 {
+                serde_json::from_str::<Ipv4Blocks>(&js).map(|b| (*b).clone()).map_err(|e| e.to_string())
+            } else {
+                serde_json::from_str::<Ipv6Blocks>(&js).map(|b| (*b).clone()).map_err(|e| e.to_string())
+            }
+        }
+        3 => {
+            let r = if v4 { ResourceSet::from_strs("", &joined, "") } else { ResourceSet::from_strs("", "", &joined) };
+            r.map(|r| pick(&r)).map_err(|e| e.to_string())
+        }
+        4 => {
+            // field names and their documented aliases
+            let (k4, k6) = if how % 2 == 0 { ("ipv4", "ipv6") } else { ("v4", "v6") };
+            let js = if v4 { json!({"asn": "", k4: joined, k6: ""}) } else { json!({"asn": "", k4: "", k6: joined}) };
+            serde_json::from_value::<ResourceSet>(js).map(|r| pick(&r)).map_err(|e| e.to_string())
+        }
+        9 => typed_from_iter(fl, items),
+        _ => {
+            let mut v = Vec::new();
+            for s in items {
+                let generic = || IpBlock::from_str(s).map_err(|e| e.to_string());
+                let b: IpBlock = match which {
+                    5 => generic()?,
+                    6 => if v4 { IpBlock::from_v4_str(s) } else { IpBlock::from_v6_str(s) }.map_err(|e| e.to_string())?,
+                    7 | 8 => {
+                        if s.contains('/') {
+                            let p = match (which, v4) {
+                                (7, true) => Prefix::from_v4_str(s),
+                                (7, false) => Prefix::from_v6_str(s),
+                                _ => Prefix::from_str(s),
+                            };
+                            IpBlock::from(p.map_err(|e| e.to_string())?)
+                        } else if s.contains('-') {
+                            let r = match (which, v4) {
+                                (7, true) => AddressRange::from_v4_str(s),
+                                (7, false) => AddressRange::from_v6_str(s),
+                                _ => AddressRange::from_str(s),
+                            };
+                            IpBlock::from(r.map_err(|e| e.to_string())?)
+                        } else {
+                            generic()?
+                        }
+                    }
+                    _ => {
+                        if s.contains('/') {
+                            let p = rpki::resources::addr::Prefix::from_str(s).map_err(|e| e.to_string())?;
+                            IpBlock::from(p)
+                        } else {
+                            generic()?
+                        }
+                    }
+                };
+                v.push(b);
+            }
+            Ok(collect_blocks(v, how))
+        }
+    }
+}
+
+/// Judges what an entry point made of a block list: rejected, or canonical
+/// and (unless the list held a reversed range, where the statement leaves
+/// the denotation open) equal to the model. `must_accept`: the input was a
+/// canonical RFC 3779 encoding.
+#[allow(clippy::too_many_arguments)]
+fn judge_entry(ctx: &mut Ctx, fl: Flavour, entry: &str, r: Result<IpBlocks, String>, model: &IntervalSet, reversed: bool, must_accept: bool, detail: &dyn Fn() -> Value) -> Option<IpBlocks> {
+    let name = fl.name();
+    match r {
+        Ok(s) => {
+            ctx.obs(&format!("accepted via {}", entry), 1);
+            let obs = observe_ip(&s);
+            if reversed {
+                ctx.eval();
+                ctx.obs("ip_reversed_accepted", 1);
+                if let Some(d) = canonical_defect(&obs, true) {
+                    ctx.violation(
+                        &format!("C03:{}:{}:reversed-range:non-canonical:{}", name, entry, d),
+                        "input with an address range whose lower bound is above its upper bound was accepted and the resulting collection is not canonical",
+                        json!({"observed": obs_json(&obs), "case": detail()}),
+                    );
+                    return None;
+                }
+                Some(s)
+            } else if check_set(ctx, fl, entry, &obs, model, detail) {
+                Some(s)
+            } else {
+                None
+            }
+        }
+        Err(e) => {
+            ctx.eval();
+            ctx.obs(&format!("rejected by {}", entry), 1);
+            if must_accept && !e.starts_with("harness:") {
+                ctx.violation(
+                    &format!("C03:{}:{}:rejects-canonical", name, entry),
+                    "a canonical RFC 3779 address block encoding was rejected",
+                    json!({"error": e, "case": detail()}),
+                );
+            } else if reversed {
+                ctx.obs("ip_reversed_rejected", 1);
+            } else {
+                ctx.obs("ip_entry_noncanonical_or_text_rejected", 1);
+            }
+            None
+        }
+    }
+}
+
+/// A hostile block list in element space: a generated sequence (sorted or
+/// not, duplicates, overlaps, adjacency, nesting, bridging) plus blocks at
+/// the ends of the number space and, if asked, one reversed range.
+pub fn hostile_list(fl: Flavour, rng: &mut Rng, reversed: bool) -> (Vec<(u128, u128)>, String) {
+    let seq = sequence(fl, rng, 4);
+    let mut blocks = seq.blocks.clone();
+    let max = fl.max();
+    let mut tags = Vec::new();
+    for _ in 0..rng.below(3) {
+        let x = fl.endpoint(rng);
+        let (b, t) = match rng.below(7) {
+            0 => ((x.min(max - 1).max(1), max), "to-max"),
+            1 => ((0, x.min(max - 1)), "from-0"),
+            2 => ((0, max), "everything"),
+            3 => ((max, max), "last"),
+            4 => ((0, 0), "first"),
+            5 => ((x, x), "zero-length"),
+            _ => ((max - 1 - rng.below(3) as u128, max), "top-few"),
+        };
+        let pos = rng.usize_below(blocks.len() + 1);
+        blocks.insert(pos, b);
+        tags.push(t);
+    }
+    if reversed {
+        let (a, b) = loop {
+            let a = fl.endpoint(rng);
+            let b = fl.endpoint(rng);
+            if a != b {
+                break (a.max(b), a.min(b));
+            }
+        };
+        let pos = rng.usize_below(blocks.len() + 1);
+        blocks.insert(pos, (a, b));
+        tags.push("reversed");
+    }
+    tags.sort();
+    tags.dedup();
+    (blocks, format!("{} +[{}]", seq.shape, tags.join(",")))
+}
+
+/// One hostile list through *every* entry point of both tables.
+fn ip_entry_sweep(ctx: &mut Ctx, rng: &mut Rng, fl: Flavour) {
+    let name = fl.name();
+    let reversed = rng.bool();
+    let (blocks, shape) = hostile_list(fl, rng, reversed);
+    let model = fl.model(&blocks);
+    // text
+    let items = ip_text_items(fl, &blocks, rng);
+    let sep = *rng.pick(&[", ", ",", " , "]);
+    for (i, entry) in IP_TEXT_ENTRIES.iter().enumerate() {
+        let how = rng.below(6);
+        let d = || json!({"flavour": name, "entry": entry, "items": items, "collector": how % 3});
+        ctx.sig(&format!("{} entry {} reversed={}", name, entry, reversed));
+        if let Some(r) = ctx.no_panic(&format!("{}:{}", name, entry), d, || ip_text_entry(i, fl, &items, sep, how)) {
+            // the generic list parser reads an empty text as "no family"; nothing to judge
+            judge_entry(ctx, fl, entry, r, &model, reversed, false, &d);
+        }
+    }
+    // DER
+    let force_range = rng.chance(1, 4);
+    let data = ip_der(fl, &blocks, force_range);
+    let canonical = !reversed && !force_range && !blocks.is_empty() && is_canonical_input(fl, &blocks);
+    for (i, entry) in IP_DER_ENTRIES.iter().enumerate() {
+        let how = rng.below(6);
+        let d = || json!({"flavour": name, "entry": entry, "der": hex(&data), "blocks": blocks_json(&blocks), "collector": how % 3});
+        ctx.sig(&format!("{} entry {} reversed={} canonical={}", name, entry, reversed, canonical));
+        if let Some(r) = ctx.no_panic(&format!("{}:{}", name, entry), d, || ip_der_entry(i, fl, &data, how)) {
+            judge_entry(ctx, fl, entry, r, &model, reversed, canonical, &d);
+        }
+    }
+    if ctx.wants_sample(&format!("{}-entry-sweep", name)) {
+        ctx.sample(&format!("{}-entry-sweep", name), || json!({"blocks": blocks_json(&blocks), "shape": shape, "text_items": items, "der": hex(&data), "entries": IP_TEXT_ENTRIES.len() + IP_DER_ENTRIES.len()}));
+    }
+    ctx.drain_chain_hook(|| json!({"flavour": name, "entry-sweep": blocks_json(&blocks)}));
+}
+
 fn ip_construct(ctx: &mut Ctx, rng: &mut Rng, fl: Flavour, seq: &Seq) -> Option<IpCase> {
     let model = fl.model(&seq.blocks);
     let blocks = seq.blocks.clone();
     let name = fl.name();
-    let how = rng.below(7);
+    let how = rng.below(10);
     let detail = |how: &str| json!({"flavour": name, "constructor": how, "blocks": blocks_json(&blocks)});
     let set = match how {
         0..=2 => {
@@ -211,70 +542,30 @@ fn ip_construct(ctx: &mut Ctx, rng: &mut Rng, fl: Flavour, seq: &Seq) -> Option<
             if !check_set(ctx, fl, "builder", &observe_ip(&s), &model, || detail("builder")) { return None; }
             s
         }
-        4 | 5 => {
-            let text = ip_text(fl, &blocks, rng);
-            let canonical = is_canonical_input(fl, &blocks);
-            let generic = how == 5;
-            let label = if generic { "from_str-generic" } else { "from_str" };
-            let r = ctx.no_panic(&format!("{}:{}", name, label), || json!({"text": text}), || {
-                if generic {
-                    IpBlocks::from_str(&text).map_err(|e| e.to_string())
-                } else {
-                    typed_from_str(fl, &text)
-                }
-            })?;
-            ctx.sig(&format!("{} {} {}", name, label, seq.shape));
-            match r {
-                Ok(s) => {
-                    if !check_set(ctx, fl, label, &observe_ip(&s), &model, || json!({"text": text})) { return None; }
-                    s
-                }
-                Err(e) => {
-                    ctx.eval();
-                    // see c03.rs: rejection of harness-written text is only recorded
-                    let _ = e;
-                    if canonical && !(generic && blocks.is_empty()) {
-                        ctx.obs("ip_text_canonical_rejected", 1);
-                    } else {
-                        ctx.obs("ip_text_noncanonical_rejected", 1);
-                    }
-                    return None;
-                }
-            }
+        4..=6 => {
+            // one of the text entry points (IP_TEXT_ENTRIES)
+            let items = ip_text_items(fl, &blocks, rng);
+            let sep = *rng.pick(&[", ", ",", " , "]);
+            let which = rng.usize_below(IP_TEXT_ENTRIES.len());
+            let coll = rng.below(6);
+            let entry = IP_TEXT_ENTRIES[which];
+            let d = || json!({"flavour": name, "entry": entry, "items": items, "collector": coll % 3});
+            let r = ctx.no_panic(&format!("{}:{}", name, entry), d, || ip_text_entry(which, fl, &items, sep, coll))?;
+            ctx.sig(&format!("{} {} {}", name, entry, seq.shape));
+            judge_entry(ctx, fl, entry, r, &model, false, false, &d)?
         }
         _ => {
+            // one of the DER entry points (IP_DER_ENTRIES)
             let force_range = rng.chance(1, 5);
             let data = ip_der(fl, &blocks, force_range);
-            let canonical = is_canonical_input(fl, &blocks) && !force_range;
-            let fam = family(fl);
-            let which = rng.below(3);
-            let r = ctx.no_panic(&format!("{}:der-decode", name), || json!({"der": hex(&data)}), || match which {
-                0 => Mode::Der.decode(data.as_slice().into_source(), |cons| IpBlocks::take_from_with_family(cons, fam)),
-                1 => Mode::Der.decode(data.as_slice().into_source(), IpBlocks::take_from),
-                _ => Mode::Der
-                    .decode(data.as_slice().into_source(), |cons| IpResources::take_from(cons, fam))
-                    .map(|r| r.to_blocks().unwrap_or_default()),
-            })?;
-            ctx.sig(&format!("{} der entry={} {}", name, which, seq.shape));
-            match r {
-                Ok(s) => {
-                    if !check_set(ctx, fl, "der-decode", &observe_ip(&s), &model, || json!({"der": hex(&data), "blocks": blocks_json(&blocks)})) { return None; }
-                    s
-                }
-                Err(e) => {
-                    ctx.eval();
-                    if canonical {
-                        ctx.violation(
-                            &format!("C03:{}:der-decode:rejects-canonical", name),
-                            "a canonical RFC 3779 address block encoding was rejected",
-                            json!({"der": hex(&data), "error": e.to_string(), "blocks": blocks_json(&blocks)}),
-                        );
-                    } else {
-                        ctx.obs("ip_der_noncanonical_rejected", 1);
-                    }
-                    return None;
-                }
-            }
+            let canonical = is_canonical_input(fl, &blocks) && !force_range && !blocks.is_empty();
+            let which = rng.usize_below(IP_DER_ENTRIES.len());
+            let coll = rng.below(6);
+            let entry = IP_DER_ENTRIES[which];
+            let d = || json!({"flavour": name, "entry": entry, "der": hex(&data), "blocks": blocks_json(&blocks), "collector": coll % 3});
+            let r = ctx.no_panic(&format!("{}:{}", name, entry), d, || ip_der_entry(which, fl, &data, coll))?;
+            ctx.sig(&format!("{} {} {}", name, entry, seq.shape));
+            judge_entry(ctx, fl, entry, r, &model, false, canonical, &d)?
         }
     };
     ctx.drain_chain_hook(|| json!({"flavour": name, "blocks": blocks_json(&blocks)}));
@@ -315,70 +606,6 @@ pub fn small_collect(ctx: &mut Ctx, fl: Flavour, blocks: &[(u128, u128)], model:
     if let Some(s) = ctx.no_panic("v6:from_iter-raw-ranges", || blocks_json(blocks), || IpBlocks::from_iter(items)) {
         check_set(ctx, fl, "from_iter-raw-ranges", &observe_ip(&s), model, || json!({"constructor": "from_iter", "blocks": blocks_json(blocks)}));
     }
-}
-
-fn ip_reversed(ctx: &mut Ctx, rng: &mut Rng, fl: Flavour) {
-    let name = fl.name();
-    let seq = sequence(fl, rng, 4);
-    let mut blocks = seq.blocks.clone();
-    let a = fl.endpoint(rng);
-    let b = fl.endpoint(rng);
-    if a == b {
-        return;
-    }
-    let pos = rng.usize_below(blocks.len() + 1);
-    blocks.insert(pos, (a.max(b), a.min(b)));
-    // text (always range syntax for the reversed one)
-    let mut parts = Vec::new();
-    for (lo, hi) in &blocks {
-        if lo == hi {
-            parts.push(addr_text(fl, *lo));
-        } else {
-            parts.push(format!("{}-{}", addr_text(fl, *lo), addr_text(fl, *hi)));
-        }
-    }
-    let text = parts.join(", ");
-    ctx.sig(&format!("{} reversed-range text", name));
-    if let Some(r) = ctx.no_panic(&format!("{}:from_str-reversed", name), || json!({"text": text}), || typed_from_str(fl, &text)) {
-        ctx.eval();
-        match r {
-            Ok(s) => {
-                let obs = observe_ip(&s);
-                if let Some(d) = canonical_defect(&obs, true) {
-                    ctx.violation(
-                        &format!("C03:{}:from_str-reversed-range:non-canonical:{}", name, d),
-                        "text with an address range whose lower bound is above its upper bound was accepted and stored non-canonically",
-                        json!({"text": text, "observed": obs_json(&obs)}),
-                    );
-                }
-                ctx.obs("ip_reversed_text_accepted", 1);
-            }
-            Err(_) => ctx.obs("ip_reversed_text_rejected", 1),
-        }
-    }
-    let data = ip_der(fl, &blocks, false);
-    let fam = family(fl);
-    ctx.sig(&format!("{} reversed-range der", name));
-    if let Some(r) = ctx.no_panic(&format!("{}:der-reversed", name), || json!({"der": hex(&data)}), || {
-        Mode::Der.decode(data.as_slice().into_source(), |cons| IpBlocks::take_from_with_family(cons, fam))
-    }) {
-        ctx.eval();
-        match r {
-            Ok(s) => {
-                let obs = observe_ip(&s);
-                if let Some(d) = canonical_defect(&obs, true) {
-                    ctx.violation(
-                        &format!("C03:{}:der-reversed-range:non-canonical:{}", name, d),
-                        "an RFC 3779 address range with min above max was accepted and stored non-canonically",
-                        json!({"der": hex(&data), "observed": obs_json(&obs)}),
-                    );
-                }
-                ctx.obs("ip_reversed_der_accepted", 1);
-            }
-            Err(_) => ctx.obs("ip_reversed_der_rejected", 1),
-        }
-    }
-    ctx.drain_chain_hook(|| json!({"flavour": name, "reversed-input": blocks_json(&blocks)}));
 }
 
 fn ip_unary(ctx: &mut Ctx, c: &IpCase) {
@@ -474,7 +701,84 @@ fn ip_unary(ctx: &mut Ctx, c: &IpCase) {
             }
         }
     }
+    // every other public structural encoder of the collection, its wrappers and its blocks
+    if !c.model.is_empty() {
+        for (twin, inner) in ip_encoder_twins(ctx, fl, &c.set, blocks) {
+            ctx.eval();
+            ctx.sig(&format!("{} encoder {}", name, twin));
+            let read = inner.as_deref().and_then(|b| ip_der_read(b).map(|r| (b.to_vec(), r)));
+            match read {
+                Some((bytes, read)) => {
+                    let m = IntervalSet::from_ranges(&read);
+                    let root = der::parse(&bytes).unwrap();
+                    let obs: Obs = read.iter().zip(root.children.iter()).map(|((a, b), n)| (*a, *b, n.tag == der::T_SEQUENCE)).collect();
+                    if m != c.model || read.iter().any(|(a, b)| a > b) {
+                        ctx.violation(&format!("C03:{}:{}:wrong-set", name, twin), "a structural encoder writes an encoding that denotes a different set", json!({"der": hex(&bytes), "blocks": blocks_json(blocks)}));
+                    } else if let Some(defect) = canonical_defect(&obs, true) {
+                        ctx.violation(&format!("C03:{}:{}:non-canonical:{}", name, twin, defect), "a structural encoder writes a non-canonical encoding", json!({"der": hex(&bytes), "blocks": blocks_json(blocks)}));
+                    }
+                }
+                None => ctx.violation(&format!("C03:{}:{}:unreadable", name, twin), "a structural encoder does not write a SEQUENCE OF IPAddressOrRange where RFC 3779 puts one", json!({"der": inner.as_deref().map(hex), "blocks": blocks_json(blocks)})),
+            }
+        }
+    }
     ctx.drain_chain_hook(|| json!({"flavour": name, "unary-on": blocks_json(blocks)}));
+}
+
+/// The `SEQUENCE OF IPAddressOrRange` found inside what each public
+/// structural encoder writes for `set` (None: not where RFC 3779 puts it, or
+/// the encoder panicked — that is reported here).
+fn ip_encoder_twins(ctx: &mut Ctx, fl: Flavour, set: &IpBlocks, blocks: &[(u128, u128)]) -> Vec<(&'static str, Option<Vec<u8>>)> {
+    let name = fl.name();
+    let fam = family(fl);
+    let res = IpResources::blocks(set.clone());
+    let none = IpResources::missing();
+    let second = |b: Vec<u8>| der::parse(&b).and_then(|r| r.child(1).map(|n| n.whole(&b).to_vec()));
+    // Extension ::= SEQUENCE { extnID, critical, extnValue OCTET STRING { SEQUENCE OF IPAddressFamily } }
+    let ext = |b: Vec<u8>| {
+        let root = der::parse(&b)?;
+        let val = root.children.last()?;
+        if val.tag != der::T_OCTETSTRING {
+            return None;
+        }
+        let inner = val.content(&b).to_vec();
+        let fams = der::parse(&inner)?;
+        if fams.children.len() != 1 {
+            return None;
+        }
+        fams.path(&[0, 1]).map(|n| n.whole(&inner).to_vec())
+    };
+    let mut out: Vec<(&'static str, Option<Vec<u8>>)> = Vec::new();
+    let mut run = |ctx: &mut Ctx, twin: &'static str, f: &dyn Fn() -> Option<Vec<u8>>| {
+        let d = || json!({"flavour": name, "encoder": twin, "blocks": blocks_json(blocks)});
+        if let Some(r) = ctx.no_panic(&format!("{}:{}", name, twin), d, f) {
+            out.push((twin, r));
+        }
+    };
+    run(ctx, "IpBlocks::encode_ref", &|| Some(set.encode_ref().to_captured(Mode::Der).as_slice().to_vec()));
+    run(ctx, "IpBlocks::encode", &|| Some(set.clone().encode().to_captured(Mode::Der).as_slice().to_vec()));
+    run(ctx, "IpBlocks::encode_family", &|| second(set.encode_family(fam).to_captured(Mode::Der).as_slice().to_vec()));
+    run(ctx, "IpResources::encode", &|| Some(res.clone().encode().to_captured(Mode::Der).as_slice().to_vec()));
+    run(ctx, "IpResources::encode_family", &|| second(res.encode_family(fam).to_captured(Mode::Der).as_slice().to_vec()));
+    run(ctx, "IpResources::encode_extension", &|| {
+        let (a, b) = if fl == Flavour::V4 { (&res, &none) } else { (&none, &res) };
+        IpResources::encode_extension(Overclaim::Refuse, a, b).and_then(|v| ext(v.to_captured(Mode::Der).as_slice().to_vec()))
+    });
+    run(ctx, "IpBlock::encode", &|| {
+        let items: Vec<Vec<u8>> = set.iter().map(|b| b.encode().to_captured(Mode::Der).as_slice().to_vec()).collect();
+        Some(der::seq_of(&items))
+    });
+    run(ctx, "Prefix|AddressRange::encode", &|| {
+        let items: Vec<Vec<u8>> = set
+            .iter()
+            .map(|b| match b {
+                IpBlock::Prefix(p) => p.encode().to_captured(Mode::Der).as_slice().to_vec(),
+                IpBlock::Range(r) => r.encode().to_captured(Mode::Der).as_slice().to_vec(),
+            })
+            .collect();
+        Some(der::seq_of(&items))
+    });
+    out
 }
 
 fn relation(a: &IntervalSet, b: &IntervalSet) -> &'static str {
@@ -624,8 +928,24 @@ fn ip_pair(ctx: &mut Ctx, rng: &mut Rng, a: &IpCase, b: &IpCase) {
 /// Range → prefix questions.
 fn ranges(ctx: &mut Ctx, rng: &mut Rng, fl: Flavour, n: u64) {
     let name = fl.name();
-    for _ in 0..n {
-        let (lo, hi) = fl.block(rng);
+    for i in 0..n {
+        // half of the ranges sit on the ends of the family's address space
+        let max = fl.max();
+        let (lo, hi) = if i % 2 == 0 {
+            fl.block(rng)
+        } else {
+            let e = fl.endpoint(rng);
+            match rng.below(8) {
+                0 => (e.min(max - 1).max(1), max),
+                1 => (0, e.min(max - 1)),
+                2 => (0, max),
+                3 => (max, max),
+                4 => (0, 0),
+                5 => (max - 1 - rng.below(4) as u128, max),
+                6 => (1, max),
+                _ => (0, max - 1),
+            }
+        };
         let (x, y) = fl.embed(lo, hi);
         let d = || json!({"flavour": name, "range": [x.to_string(), y.to_string()]});
         let range = AddressRange::new(Addr::from_bits(x), Addr::from_bits(y));
@@ -683,6 +1003,27 @@ fn ranges(ctx: &mut Ctx, rng: &mut Rng, fl: Flavour, n: u64) {
             if ok {
                 let end = list.last().map(|p| p.max().to_bits());
                 ok = end == Some(y);
+            }
+            if ok {
+                // the unique minimal cover: greedily the largest aligned prefix that still fits
+                let mut want = 0usize;
+                let mut at = x;
+                loop {
+                    let align = if at == 0 { 128 } else { at.trailing_zeros() };
+                    let room = y - at; // size - 1 of what is left
+                    let fit = if room == u128::MAX { 128 } else { 127 - (room + 1).leading_zeros() };
+                    let k = align.min(fit);
+                    want += 1;
+                    let last = if k == 128 { u128::MAX } else { at + ((1u128 << k) - 1) };
+                    if last == y {
+                        break;
+                    }
+                    at = last + 1;
+                }
+                if list.len() != want {
+                    // an exact cover that is longer than necessary still denotes the same set
+                    ctx.obs("to_prefixes_exact_but_not_minimal", 1);
+                }
             }
             if !ok {
                 ctx.violation(
@@ -867,7 +1208,7 @@ pub fn run_ip(ctx: &mut Ctx) {
                     ip_pair(ctx, &mut rng, a, b);
                 }
             }
-            ip_reversed(ctx, &mut rng, fl);
+            ip_entry_sweep(ctx, &mut rng, fl);
             builder_multi_call(ctx, &mut rng, fl);
             ranges(ctx, &mut rng, fl, if ctx.stage == Stage::Miri { 3 } else { 12 });
             per_fl.push(cases);
